@@ -51,6 +51,12 @@ def run(tier):
         P = gen.gen_direct(random.Random(seed), partial_joins=False, p_join=1.0, p_cmd=0.0, allow_cmd=False,
                            p_sub=0.15, p_items=0.15, p_publish=0.5)
         progs.append(('det%d' % k, P))
+    # data flow: a variable (scalar, nested, two levels deep) published before a fork and re-published inside ONE branch - no
+    # conflicting publishes - merged at a join and in the output; every (scheduler, policy, eviction) variant
+    from harness import dfgen
+    for nm, P in dfgen.catalogue():
+        if tier == 'thorough' or nm.endswith('_tails') or 'deep' in nm:
+            progs.append((nm, P))
     jobs = []
     variants = [(s, p, e) for s in ('default', 'legacy') for p in engrun.POLICIES[1:] for e in (False, True)]
     for nm, P in progs:
